@@ -241,7 +241,7 @@ func C14(op Opts) *Out {
 	H := uint32(0x80000000)
 	idxs := []uint32{0, 1, H - 1, H, H + 1}
 	depth := 2
-	if op.Tier == "thorough" {
+	if op.Tier != "quick" {
 		depth = 3
 	}
 	k := 0
@@ -365,7 +365,7 @@ func C14(op Opts) *Out {
 	// hardened and non-hardened children on the implementation.
 	parents := [][]byte{make([]byte, 32), bytes.Repeat([]byte{0x11}, 32), bytes.Repeat([]byte{0xa5}, 16), mustHex("000102030405060708090a0b0c0d0e0f")}
 	nb := 4
-	if op.Tier == "thorough" {
+	if op.Tier != "quick" {
 		for b := byte(1); b < 40; b++ {
 			parents = append(parents, bytes.Repeat([]byte{b, 0x3c}, 16))
 		}
